@@ -14,6 +14,7 @@ Every operation other than `setVar` preserves `Inv` unconditionally, and `setVar
 dataset's axis names are pairwise distinct (`SetVarOK`, defined in DimModel/Proofs/C13.lean).
 -/
 import DimModel.Proofs.C13
+import DimModel.Lib.DatasetCtor
 namespace DimModel
 open DS
 
@@ -212,5 +213,102 @@ theorem inv_reachable_counterexample : ∃ ops, ¬ Inv (run init ops) :=
 /-- non-vacuity: a two-step history from the empty dataset -/
 example : Inv (run init [.setVar "a" [("x", [.num 1, .num 2], .i)], .setVar "b" [("x", [.num 1, .num 2], .i), ("y", [.str "u"], .O)]]) :=
   inv_reachable_renameFree _ (by decide)
+
+/-! ## The constructor from arrays with differing labels (`Dataset.__init__`: outer-join alignment, then `__setitem__` one by
+one; mirror `DS.construct`, Lib/DatasetCtor.lean) as a starting point of the histories -/
+
+/-- a constructor run that does not raise is the run of its `__setitem__` operations -/
+theorem runAll_eq_run : ∀ (s s' : State) (ops : List Op), runAll s ops = .ok s' → s' = run s ops
+  | s, s', [], h => by simp only [runAll, Except.ok.injEq] at h; exact h.symm
+  | s, s', op :: ops, h => by
+    unfold runAll at h
+    have hrun : run s (op :: ops) = run (step s op).1 ops := rfl
+    rw [hrun]
+    rcases hst : step s op with ⟨s1, r⟩
+    rw [hst] at h
+    cases r with
+    | error e => cases h
+    | ok u => exact runAll_eq_run s1 s' ops h
+
+/-- ... and none of its steps was rejected -/
+theorem runAll_steps_ok : ∀ (s s' : State) (ops : List Op), runAll s ops = .ok s' →
+    ∀ (i : Nat) (op : Op), ops[i]? = some op → ∃ u, (step (run s (ops.take i)) op).2 = .ok u
+  | s, s', [], h, i, op, hi => by simp at hi
+  | s, s', o :: ops, h, i, op, hi => by
+    unfold runAll at h
+    rcases hst : step s o with ⟨s1, r⟩
+    rw [hst] at h
+    cases r with
+    | error e => cases h
+    | ok u =>
+      cases i with
+      | zero =>
+        simp only [List.getElem?_cons_zero, Option.some.injEq] at hi
+        subst hi
+        exact ⟨u, by simp [run, hst]⟩
+      | succ n =>
+        simp only [List.getElem?_cons_succ] at hi
+        have := runAll_steps_ok s1 s' ops h n op hi
+        have hrun : run s ((o :: ops).take (n + 1)) = run s1 (ops.take n) := by
+          simp only [List.take_succ_cons, run, List.foldl_cons, hst]
+        rw [hrun]; exact this
+
+theorem ctorOps_renameFree {α : Type} (keys : List String) (vals : List (DimArray α)) :
+    ∀ op ∈ ctorOps keys vals, op.renameFree = true := by
+  intro op hop
+  unfold ctorOps at hop
+  obtain ⟨kv, -, rfl⟩ := List.mem_map.mp hop
+  rfl
+
+/-- distinct axis names survive every history without axis renaming -/
+theorem names_run (s : State) (ops : List Op) (h : Inv s) (hn : NamesNodup s) (hr : ∀ op ∈ ops, op.renameFree = true) :
+    NamesNodup (run s ops) := by
+  induction ops generalizing s with
+  | nil => exact hn
+  | cons op ops ih =>
+    have hok : SetVarOK s op := by cases op <;> first | exact hn | trivial
+    exact ih _ (inv_step_partial s op h hok) (names_step s op h hn (hr op List.mem_cons_self))
+      (fun op' hm => hr op' (List.mem_cons_of_mem _ hm))
+
+/-- **the constructed dataset satisfies the shared-axes invariant** - for ANY keys and ANY input arrays (differing labels,
+differing dimensions, differing orders): whenever `Dataset(...)` does not raise, the state it returns satisfies `Inv`, its axis
+names are distinct, it is the state reached from the empty dataset by assigning the ALIGNED arrays (`Lib.align`, outer join:
+C06's theorems say what they are) one by one, and none of these assignments was rejected -/
+theorem construct_inv {α : Type} (nan : α) (keys : List String) (arrays vals : List (DimArray α)) (s : State)
+    (h : construct nan keys arrays = .ok (vals, s)) :
+    Lib.align nan arrays .outer none false false = .ok vals ∧
+    s = run init (ctorOps keys vals) ∧ Inv s ∧ NamesNodup s ∧
+    ∀ (i : Nat) (op : Op), (ctorOps keys vals)[i]? = some op →
+      ∃ u, (step (run init ((ctorOps keys vals).take i)) op).2 = .ok u := by
+  unfold construct at h
+  cases hal : Lib.align nan arrays .outer none false false with
+  | error e => rw [hal] at h; cases h
+  | ok vs =>
+    rw [hal] at h
+    simp only [bind, Except.bind] at h
+    cases hr : runAll init (ctorOps keys vs) with
+    | error e => rw [hr] at h; cases h
+    | ok s1 =>
+      rw [hr] at h
+      simp only [pure, Except.pure, Except.ok.injEq, Prod.mk.injEq] at h
+      obtain ⟨rfl, rfl⟩ := h
+      have hs := runAll_eq_run init s1 _ hr
+      have hfree := ctorOps_renameFree keys vs
+      refine ⟨rfl, hs, ?_, ?_, runAll_steps_ok init s1 _ hr⟩
+      · rw [hs]; exact inv_reachable_renameFree _ (List.all_eq_true.2 hfree)
+      · rw [hs]; exact names_run init _ inv_init (by simp [NamesNodup, init]) hfree
+
+/-- **`inv_reachable` from constructed datasets**: every state reached from a dataset constructed from arrays with differing
+labels by a finite history satisfies the invariant (same side condition as `inv_run`; unconditional for histories without axis
+renaming: `inv_from_construct_renameFree`) -/
+theorem inv_from_construct {α : Type} (nan : α) (keys : List String) (arrays vals : List (DimArray α)) (s : State)
+    (h : construct nan keys arrays = .ok (vals, s)) (ops : List Op) (hok : RunOK s ops) : Inv (run s ops) :=
+  inv_run s ops (construct_inv nan keys arrays vals s h).2.2.1 hok
+
+theorem inv_from_construct_renameFree {α : Type} (nan : α) (keys : List String) (arrays vals : List (DimArray α)) (s : State)
+    (h : construct nan keys arrays = .ok (vals, s)) (ops : List Op) (hr : ∀ op ∈ ops, op.renameFree = true) :
+    Inv (run s ops) := by
+  obtain ⟨-, -, hinv, hn, -⟩ := construct_inv nan keys arrays vals s h
+  exact inv_run s ops hinv (runOK_of_renameFree s ops hinv hn hr)
 
 end DimModel
